@@ -321,6 +321,16 @@ box_del
 assert
 b ok
 notdelete:
+txna ApplicationArgs 0
+byte "big"
+==
+bz notbig
+txna ApplicationArgs 1
+int 8192
+box_create
+assert
+b ok
+notbig:
 txna ApplicationArgs 1
 int 0
 txna ApplicationArgs 2
